@@ -186,6 +186,14 @@ pub fn gen_case(rng: &mut Rng, opts: &GenOpts) -> Case {
         let len = n + rng.below(n / 8 + 1);
         texts.push(text::text_from(rng, &alpha, len));
     }
+    // rare: one text long enough to contain a dictionary word / tag token of several hundred characters
+    let long_word = !opts.tiny && opts.max_text_len >= 40 && rng.chance(1, 50);
+    let mut long_idx = 0;
+    if long_word {
+        let len = rng.urange(320, 420);
+        texts.push(text::text_from(rng, &alpha, len));
+        long_idx = texts.len() - 1;
+    }
     if big {
         for _ in 0..2 {
             let len = rng.urange(opts.max_text_len.min(150), opts.max_text_len.min(500));
@@ -250,6 +258,12 @@ pub fn gen_case(rng: &mut Rng, opts: &GenOpts) -> Case {
         }
         dict_set.insert(w);
     }
+    if long_word {
+        let t = texts[long_idx].clone();
+        let len = *rng.pick(&[255usize, 256, 257, 300]);
+        let st = rng.below(t.len() - len + 1);
+        dict_set.insert(t[st..st + len].to_vec());
+    }
     // --- type n-grams
     let mut type_set: BTreeSet<Vec<u8>> = BTreeSet::new();
     let n_type = if rng.chance(1, 6) { 0 } else if big { rng.urange(20, maxp / 3) } else { rng.urange(1, maxp.min(8)) };
@@ -312,6 +326,13 @@ pub fn gen_case(rng: &mut Rng, opts: &GenOpts) -> Case {
         for _ in 0..n_tok {
             tokens.insert(substrings(rng, &texts, 3));
         }
+        if long_word && rng.chance(1, 2) {
+            // a token of 64 or more characters
+            let t = texts[long_idx].clone();
+            let len = *rng.pick(&[63usize, 64, 65, 100]);
+            let st = rng.below(t.len() - len + 1);
+            tokens.insert(t[st..st + len].to_vec());
+        }
         let tclass = if class == WClass::Full && rng.chance(1, 2) { WClass::Full } else { WClass::Tiny };
         for tok in tokens {
             let n_cat = rng.weighted(&[1, 4, 4, 2]);
@@ -356,9 +377,15 @@ pub fn gen_case(rng: &mut Rng, opts: &GenOpts) -> Case {
                     };
                     rs.insert(r);
                 }
-                rs.into_iter()
+                let mut v: Vec<TagWeight> = rs
+                    .into_iter()
                     .map(|r| TagWeight { rel_position: r, weights: (0..n_class).map(|_| gen_weight(rng, tclass)).collect() })
-                    .collect()
+                    .collect();
+                // the file format does not prescribe an order of the offsets of one n-gram
+                if rng.chance(1, 3) {
+                    v.reverse();
+                }
+                v
             };
             let char_ngram_model = cset
                 .iter()
